@@ -5,24 +5,33 @@ CFG = {
     "drivers": ["C01"],
     "stateful": True,
     "trivial_prefix": ("-", "bytes="),
-    "rule": "frame histories on a real Vaxis over the fake console: bounded-exhaustive two-frame histories on a 1x4 screen "
-            "(5 graphemes x 3 styles x positions x Clear/no Clear) and random histories (<= 8 frames of Clear/Fill/SetCell/"
-            "SetStyle/Print/ShowCursor/HideCursor then Render/Refresh/resize; screens up to 8x4 quick, 40x12 thorough; all "
-            "combinations of rgb/styledUnderlines/explicitWidth/sync/unicodeCore); a case = one history; non-trivial = a frame "
-            "line (render/refresh) that produced tokens; distinct by the op list up to that frame",
+    "rule": "frame histories on a real Vaxis over the fake console: corpus scenarios (corpus/C01/*.ops: minimised past failures F01, F02, F113) first; "
+            "bounded-exhaustive two-frame histories on a 1x4 screen (5 graphemes x 3 styles x positions x Clear/no Clear) and random histories "
+            "(<= 8 frames of Clear/Fill/SetCell/SetStyle/Print/ShowCursor/HideCursor, blocks of sixel-flagged cells in a quarter of the histories, "
+            "then Render/Refresh/resize; screens up to 8x4 quick, 40x12 thorough; all combinations of rgb/styledUnderlines/explicitWidth/sync/"
+            "unicodeCore); a case = one history; non-trivial = a frame line (render/refresh) that produced tokens; distinct by the op list up to that frame",
     "trusted_base": ["Spec.Display (reference terminal for the renderer vocabulary), Spec.Sgr, Spec.Tokenize (byte lexer; grapheme "
                      "segmentation by longest match over the run's alphabet)",
-                     "uniseg/runewidth character widths are parameters (cw) supplied per run by the real library"],
-    "level_text": "Proved for the executable model of render()/writer.Flush (Model/Render.lean), for all grids, styles, capability sets, width "
-                  "oracles and histories: frame_displays_partial / history_displays (after every frame of any admissible history - refreshes and "
-                  "diff frames in any order, refresh from ANY well-formed prior grid - the reference terminal shows exactly the application's screen "
-                  "and nothing terminal-specific was relied on), flush_epilogue (pen reset, hyperlink closed, sync balanced), cursor_as_requested. "
-                  "The model is tied to vaxis.go/writer.go by token-for-token comparison with the bytes the real code writes on generated "
-                  "frame histories, and the property itself is evaluated on the real bytes through Spec.Display.",
-    "level_note": "Hypotheses of the display theorem (each shown necessary by a decide-checked witness in Witness/C01Display.lean): glyphs fit "
-                  "their row (known finding F02 otherwise), explicit widths are 0/correct/(>1 with OSC 66), a space has width 1, the prior grid is "
-                  "well-formed on refresh, a visible cursor lies inside the screen, no stale hyperlink params. Sixel cells and graphics placements "
-                  "are outside the model (C20). Spec.Display is a model of a standards-conforming terminal, not a physical one.",
+                     "uniseg/runewidth character widths are parameters (cw) supplied per run by the real library",
+                     "hooks VerifScreenNext/VerifScreenLast/VerifCellSixel/VerifSixelCell (read-only / constructor of the cell Sixel.Draw places)"],
+    "level_text": "Proved for the executable models of render()/writer.Flush and of the drawing API, for all grids, styles, capability sets, width oracles and "
+                  "histories: app_history_displays / app_from_start (after EVERY frame of EVERY run of SetCell/SetStyle/Fill/Clear/Print/PrintTruncate/Println/Wrap on "
+                  "arbitrary nested windows, ShowCursor/HideCursor, Render/Refresh and terminal size changes in any order, the reference terminal shows exactly the "
+                  "screen the C11 window model computes, nothing terminal-specific relied on, terminal at rest), app_first_frame_after_resize (buffers reallocated, "
+                  "refresh set, then whatever well-formed grid the terminal shows), app_screen_is_last_write (that screen = the writes of Spec.Window that hit each cell, "
+                  "last wins, never-written blank), app_cursor / app_cursor_always (cursor as last requested after every frame, also after a size change whatever the terminal did with the cursor) / showCursor_position, frame_displays / history_displays_clip (no 'glyph fits' hypothesis since the F02 "
+                  "repair), frame_displays_current, sixel_cell_not_drawn, dropped_image_rewritten, flush_epilogue, cursor_as_requested. Structural tie: the statement "
+                  "skeletons of render/showCursor/advance/Write/WriteString/Flush regenerated from the source equal the pinned transcription (facts_render, facts_writer, "
+                  "render_fully_recognised) and the attribute delta is the interpretation of the extracted tables (attrToks_from_source, penDelta_order). Behavioural tie: "
+                  "token-for-token comparison with the bytes the real code writes; the property itself is evaluated on the real bytes through Spec.Display.",
+    "level_note": "Left to the application/terminal as explicit hypotheses (each shown necessary by a decide-checked witness): cells given to SetCell/Fill have width >= 0 and an "
+                  "explicit width that is 0/correct/(>1 with OSC 66); uniseg's width is the terminal's when the text helpers do not re-measure; the ellipsis has width 1 for "
+                  "PrintTruncate; a space has width 1; a visible cursor is inside the screen at Render (Window.ShowCursor does not clip: Witness/C11ShowCursor); after a size "
+                  "change the terminal shows a well-formed grid. Not proved: the cursor clause after a size change to a screen with 0 columns or rows. Validated by correspondence only: "
+                  "that the Lean loops equal the Go loops beyond their pinned statement structure; screens WITH image cells (oracle treats image cells as don't-care; the "
+                  "display theorems assume none). Placement loops of render() are C20's. Spec.Display is a model of a standards-conforming terminal, not a physical one.",
     "assumptions": ["terminal width of a raw-printed grapheme equals Vaxis's characterWidth under the same capability set (C07 width method)",
                     "explicit cell widths given by the application are either 0 (auto) or correct, or any width > 1 when OSC 66 is available"],
+    "technique": "Lean 4 proof (invariants over frame histories, refinement of the repaired loop to the round-1 loop, composition with the C11 window model) + extractor "
+                 "(statement skeletons, tables) + differential correspondence",
 }
